@@ -59,6 +59,9 @@ MACRO_TEMPLATES = [
     ("block-next-to-splice", "`{ { let {B} = 5.0\n {B} * 2.0 } + $x }"),
     ("tuple-pattern", "`{ let ({B}, {B2}) = (1.0, 2.0)\n ($x + {B}) * {B2} }"),
     ("nested-tuple-pattern", "`{ let (({B}, {B2}), k9) = ((1.0, 2.0), 3.0)\n ($x + {B}) * {B2} + k9 }"),
+    # two nested tuples on one level, the first with two nested tuples of its own: the desugaring temporaries of the inner level are live
+    # together with a pending one of the outer level (response to seeded change C10c)
+    ("deep-tuple-pattern", "`{ let ((({B}, k1), (k2, k3)), (k4, {B2})) = (((1.0, 2.0), (3.0, 4.0)), (5.0, 6.0))\n ((($x + {B}) * 10.0 + k3) * 10.0 + {B2}) * 10.0 + k4 + k1 * k2 }"),
     ("two-lets", "`{ let {B} = 1.0\n let {B2} = {B} + $x\n {B2} * {B} }"),
     ("free-global", "`{ let {B} = {G}\n $x + {B} * {G} }"),
     ("let-in-lambda-body", "`{ (|p9| { let {B} = p9\n {B} + $x })(6.0) }"),
@@ -363,6 +366,6 @@ def finish(ck):
                       "alpha-equivalence of a program and its renaming by a fresh name is the standard fact, not mechanised: C10_hygiene_fresh "
                       "states the commutation of expansion with renaming; the output comparison of the check covers the meaning",
                       "python-side class predicate of F7 (name sets of the macro's quotation and of the use site)"],
-        rule=("9 macro-body templates (binder around / next to the splice, lambda, tuple and nested tuple patterns, free global) x binder and use-site "
+        rule=("10 macro-body templates (binder around / next to the splice, lambda, tuple and nested tuple patterns, free global) x binder and use-site "
               "names drawn from a pool of 8 (one third forced to collide) x argument expressions; each case run before and after renaming the macro "
               "binder or the use-site binder to a fresh name; non-trivial = both versions compile and run; distinct = distinct program pairs"))
